@@ -4,7 +4,9 @@ import json
 from .. import common as c, corpus, translate, custbins
 
 THEOREMS = [("Sylvia.Thm.C11", "C11." + t) for t in ["into_response_ok", "into_response_err_iff", "intoMsgs_ok", "intoMsgs_err"]] + \
-           [("Sylvia.Thm.Obl.Convertible", "Obl.convertible_complete"), ("Sylvia.Thm.Obl.Complete.C11", "Obl.extraction_complete_C11")]
+           [("Sylvia.Thm.C11Features", "C11.into_response_ok_under"), ("Sylvia.Thm.C11Features", "C11.completeAllB_sound"),
+            ("Sylvia.Thm.Obl.ConvertibleCfg", "Obl.convertible_complete_under_all_features"),
+            ("Sylvia.Thm.Obl.Convertible", "Obl.convertible_complete"), ("Sylvia.Thm.Obl.Complete.C11", "Obl.extraction_complete_C11")]
 KINDS = ["bank", "burn", "wasm", "wasm_inst", "custom", "staking", "distribution", "ibc", "ibc_transfer", "gov", "any", "stargate"]
 
 
@@ -27,7 +29,7 @@ def run(ctx):
     ctx.cov["trusted_base"] = ["Lean 4.33 kernel", "axioms: propext, Classical.choice, Quot.sound only (audited)",
                                "translator: the arms of IntoMsg::into_msg and the field-by-field forms of into_msg / into_response are re-read from sylvia/src/into_response.rs",
                                "L3 rt harness (real IntoResponse on generated Response<Empty>) + svmodel driver"]
-    ctx.assumptions += ["cargo features of the harness: staking, stargate, cosmwasm_2_0 (all CosmosMsg variants of cosmwasm-std 2.2 present)",
+    ctx.assumptions += ["cargo features of the harness: staking, stargate, cosmwasm_2_0 (all CosmosMsg variants of cosmwasm-std 2.2 present); a second build uses sylvia's default features only",
                         "the dispatch arms that call into_response / into_empty for `: custom(msg, query)` interfaces are covered by the L1 facts of C17/C03 streams (templates) — see DESIGN"]
     translate.regenerate()
     c.prove(ctx, ["Sylvia.Thm.C11", "Sylvia.Thm.Obl.Convertible"], THEOREMS)
@@ -56,6 +58,25 @@ def run(ctx):
             ctx.violation(cls, "response with message kinds %s: observed %s, required %s" % (kinds, r[:160], want), {"op": o, "observed": r, "required": want})
     ctx.add_stream("L3-into-response", len(ops), len(set(ops)), samples=ops[1:3], model_disagreements=nd, oracle_failures=bad, histogram=hist)
     ctx.cov["traces_validated_against_impl"] += len(ops)
+    # the same library built as a default user builds it (feature `staking` only): the cfg-guarded arms of into_msg must cover
+    # every variant that exists under that feature set
+    exe_min = c.build_rt_min()
+    kinds_min = ["bank", "burn", "wasm", "wasm_inst", "custom", "staking", "distribution"]
+    specs2 = [sp for sp in specs if all(m["kind"] in kinds_min for m in sp["msgs"])][:ctx.size(1500, 40000)]
+    ops2 = ["intoresp " + json.dumps(sp, separators=(",", ":")) for sp in specs2]
+    impl2 = c.run_lines(exe_min, ops2)
+    bad2 = 0
+    for sp, o, r in zip(specs2, ops2, impl2):
+        has_custom = any(m["kind"] == "custom" for m in sp["msgs"])
+        want = "err Generic error: Custom Empty message should not be sent" if has_custom else "ok same=true msgs=%d" % len(sp["msgs"])
+        if r != want:
+            bad2 += 1
+            kinds = sorted({m["kind"] for m in sp["msgs"]})
+            cls = "non-custom-message-refused" if "Unknown message variant" in r else "response-altered"
+            ctx.violation(cls, "sylvia built with its default features (staking only): response with message kinds %s: observed %s, required %s" % (kinds, r[:160], want),
+                          {"op": o, "observed": r, "required": want, "features": "default (staking)"})
+    ctx.add_stream("L3-into-response-default-features", len(ops2), len(set(ops2)), samples=ops2[1:3], oracle_failures=bad2)
+    ctx.cov["traces_validated_against_impl"] += len(ops2)
     custbins.stream(ctx)
     ctx.cov["rule"] = "generated Response<Empty>: 0..8 sub-messages over 12 message shapes (9 CosmosMsg variants), ids/gas limits/triggers/payloads, attributes, events, data; with and without custom messages"
     if ctx.violations:
